@@ -2,7 +2,7 @@
    (the matrix half is Properties/C10_matrix.v).  Restates Proofs/DriverMemory.v on the memory functions of the driver
    model (update_mem = update_lbfgs_matrices's effect on X, G and on which history the matrices are built from). *)
 From Coq Require Import List ZArith Bool String Lia Floats.PrimFloat.
-From LBFGSB Require Generated.BfgsMem.
+From LBFGSB Require Generated.BfgsMem Generated.MatsGen Model.DriverKern Proofs.MatsTie.
 From LBFGSB Require Import Base.Res Model.SF Model.FloatVec Model.Driver Generated.Memory Proofs.DriverMemory.
 Import ListNotations.
 Open Scope Z_scope.
@@ -68,6 +68,32 @@ Proof.
     destruct (Z.of_nat (List.length X + 1) >? maxcor c + 1); repeat split; auto; discriminate.
   - repeat split; auto. discriminate.
 Qed.
+
+(* TRANSLATION TIE for update_lbfgs_matrices outside its dense linear algebra (Generated/MatsGen.v, regenerated on every run):
+   WHEN the matrices are rebuilt (`if is_force_update or is_current_update_accepted`) is the rule of the model's memory update;
+   theta = y.y / s.y of the NEWEST stored pair (X[-1] - X[-2], G[-1] - G[-2]) and W = [Y, theta * S] with S, Y the differences
+   of the stored points and gradients, oldest first, are the parameters (Model/DriverKern.v: mats_params) that the composed
+   binary64 model hands to the Cauchy and subspace kernels. *)
+Theorem C10_rebuild_rule_from_source : forall (K : kern) (c : cfg) (force : bool) xk gk (X G : list vec) m,
+  let acc := curvature_ok K c xk gk (last X []) (last G []) in
+  let '(X2, G2, m2) := update_mem_f K c force xk gk X G m in
+  m2 = if LBFGSB.Generated.MatsGen.rebuild force acc then Some (X2, G2) else m.
+Proof.
+  intros K c force xk gk X G m. cbv zeta. unfold update_mem_f, last_or, LBFGSB.Generated.MatsGen.rebuild.
+  destruct (curvature_ok K c xk gk (last X []) (last G [])); [rewrite orb_true_r; reflexivity|]. rewrite orb_false_r. destruct force; reflexivity.
+Qed.
+Theorem C10_theta_from_source : forall (vdot : vec -> vec -> float) (n : nat) (X0 G0 : list vec) (x0 x1 g0 g1 : vec),
+  let X := X0 ++ [x0; x1] in let G := G0 ++ [g0; g1] in
+  LBFGSB.Generated.MatsGen.theta vdot X G = fst (fst (DriverKern.mats_params vdot n (Some (X, G)))) /\
+  LBFGSB.Generated.MatsGen.theta vdot X G = div (vdot (vsub g1 g0) (vsub g1 g0)) (vdot (vsub x1 x0) (vsub g1 g0)).
+Proof.
+  intros. split; [exact (MatsTie.theta_eq vdot n X0 G0 x0 x1 g0 g1)|].
+  unfold LBFGSB.Generated.MatsGen.theta, X, G. destruct (MatsTie.nth_back_snoc2 X0 x0 x1) as [-> ->]. destruct (MatsTie.nth_back_snoc2 G0 g0 g1) as [-> ->]. reflexivity.
+Qed.
+Theorem C10_W_from_source : forall (vdot : vec -> vec -> float) (n : nat) (X G : list vec),
+  Forall (fun s => List.length s = n) (diffs X) ->
+  LBFGSB.Generated.MatsGen.w_matrix n (fst (fst (DriverKern.mats_params vdot n (Some (X, G))))) X G = snd (fst (DriverKern.mats_params vdot n (Some (X, G)))).
+Proof. exact MatsTie.w_eq. Qed.
 
 Print Assumptions C10_memory_history.
 Print Assumptions C10_reject_inert.
